@@ -78,6 +78,9 @@ type CmpIn struct {
 	SkipValidity bool
 	// SkipSignature: do not verify (e.g. issuer certificate unknown).
 	SkipSignature bool
+	// IssuerRealKey: the public half of the issuer's private key, for an issuer whose certificate shows
+	// manipulated key bits or a manipulated key algorithm (the signature is made with the real key).
+	IssuerRealKey *refx509.PublicKey
 }
 
 func familyOfKeyAlg(name string) string {
@@ -329,6 +332,9 @@ func Compare(in CmpIn) []Diff {
 		}
 	} else if !in.SkipSignature {
 		pub, err := issuer.PublicKey()
+		if in.IssuerRealKey != nil {
+			pub, err = in.IssuerRealKey, nil
+		}
 		if in.Issuer == nil && (m.TbsPubKey != nil || m.TbsPubKeyAlg != nil) {
 			pub, err = nil, nil // self-signed with manipulated key: the real key is not in the certificate
 		}
